@@ -113,7 +113,6 @@ def run(chk):
             if why:
                 shape = None
                 if not ob.has_host() and ob.scheme == "-" and ob.abs == "0" and ob.segs and "3a" in ob.segs[0].split("."): shape = "c08_rel_exposes_colon"
-                if not ob.has_host() and path_text(ob).startswith("2f.2f") or (not ob.has_host() and path_text(ob) == "2f.2f"): shape = "c08_abs_exposes_dslash"
                 if shape and excusable and o == model[i] and fnd.covers(shape, {"history": hreq[i], "step": si}):
                     if dst is not None: tslots.add(dst)
                     continue
